@@ -150,6 +150,12 @@ func c18Units(tier string) []*Unit {
 		u := c17Direct(c17cfg{mode: mode, begin: mode == "group", end: mode == "group", threads: 2, pipe: true, small: true})
 		es = append(es, entry{"c17-direct-" + mode + "-two-writers-per-command", u.Sc})
 	}
+	// ... and the second writer still writing when the command's close function runs (a background
+	// job that outlives its command), with error_only, where close discards the buffer
+	for _, eo := range []bool{false, true} {
+		u := c17Direct(c17cfg{mode: "group", begin: true, end: true, errorOnly: eo, threads: 2, pipe: true, small: true, late: true})
+		es = append(es, entry{fmt.Sprintf("c17-direct-group-second-writer-outlives-the-command-error_only=%v", eo), u.Sc})
+	}
 	sort.SliceStable(es, func(i, j int) bool { return es[i].name < es[j].name })
 	var us []*Unit
 	for _, e := range es {
